@@ -221,7 +221,13 @@ func TestVerif_C09_messages(t *testing.T) {
 					cl = append(cl, k)
 				}
 				rec.Case(true, vh.Digest(c), c, cl...)
-				rec.Violation(tf, "message-history:"+strings.Fields(strings.SplitN(diff, " ", 3)[2])[0], c, "step %d (%+v): %s - still so 15 s after the step", step, o, diff)
+				key := "message-history:state"
+				if strings.Contains(diff, "announced as New") {
+					key = "message-history:announced-once-per-lifetime"
+				} else if strings.Contains(diff, "tracked") {
+					key = "message-history:tracked-set"
+				}
+				rec.Violation(tf, key, c, "step %d (%+v): %s - still so 15 s after the step", step, o, diff)
 				return
 			}
 		}
